@@ -38,7 +38,7 @@ func VerifBindStatus(arg string) {
 	vals := []string{"running", "stopped"}
 	for step := 0; step < steps; step++ {
 		tag := string(rune('1' + step))
-		switch vChoose("event_"+tag, 4) {
+		switch vChoose("event_"+tag, 5) {
 		case 0: // a status report
 			v := vals[vChoose("value_"+tag, len(vals))]
 			ttl := int64(0) // TTL zero, or any positive TTL (symbolic; equal to an earlier one or not is the solver's case split)
@@ -102,6 +102,14 @@ func VerifBindStatus(arg string) {
 			_, err := e.BatchDelete(ctx, []string{vStatusKey, vEntityKey})
 			vAssert("C25/entity-removal-succeeds", err == nil)
 			entity, has = false, false
+		case 4: // only the entity record is removed (node removal: the status key is deleted by a later, separate step)
+			if !entity {
+				continue
+			}
+			_, err := e.BatchDelete(ctx, []string{vEntityKey})
+			vAssert("C25/entity-removal-succeeds", err == nil)
+			entity = false
+			vCover("entity-removed-while-its-status-is-alive", has)
 		case 3: // the entity is (re)created
 			if entity {
 				continue
